@@ -68,6 +68,7 @@ Inductive ev_kind := First | ReliefHead | ReliefProc | ScaleDown.
 Record event := {
   ev_kind_of : ev_kind; ev_hash : N; ev_from : option nat; ev_to : nat;
   ev_series : Z; ev_total : Z; ev_head_before : Z; ev_proc_before : Z;
+  ev_times : N;                      (* scrape count of the copy that is placed / moved *)
 }.
 
 (* a posted target: hash, job, state, series *)
@@ -182,9 +183,9 @@ Definition transfer (p : plan) (from to : nat) (h : N) : plan :=
     upd from (fun s => set_scr s (aset h (set_state tar InTransfer) (scr_of s))) p1
   end.
 
-Definition mk_event (kind : ev_kind) (p : plan) (from : option nat) (to : nat) (h : N) (series total : Z) : event :=
-  {| ev_kind_of := kind; ev_hash := h; ev_from := from; ev_to := to; ev_series := series; ev_total := total;
-     ev_head_before := si_head (nth_si p to); ev_proc_before := si_proc (nth_si p to) |}.
+Definition mk_event (kind : ev_kind) (p : plan) (from : option nat) (to : nat) (h : N) (c : cstat) : event :=
+  {| ev_kind_of := kind; ev_hash := h; ev_from := from; ev_to := to; ev_series := c_series c; ev_total := c_total c;
+     ev_head_before := si_head (nth_si p to); ev_proc_before := si_proc (nth_si p to); ev_times := c_times c |}.
 
 (* ------------------------------------------------------------------ alleviateShards *)
 Definition counted (c : cstat) : bool :=
@@ -217,7 +218,7 @@ Definition relief_head_step (o : opts) (k : nat) (exp : Z) (st : relief_state) (
     | None => st
     | Some j =>
       {| rs_plan := transfer (rs_plan st) k j h; rs_total := rs_total st - c_series tar;
-         rs_events := rs_events st ++ [mk_event ReliefHead (rs_plan st) (Some k) j h (c_series tar) (c_total tar)];
+         rs_events := rs_events st ++ [mk_event ReliefHead (rs_plan st) (Some k) j h tar];
          rs_abort := false |}
     end
   end.
@@ -234,7 +235,7 @@ Definition relief_proc_step (o : opts) (k : nat) (exp : Z) (st : relief_state) (
     | None => st
     | Some j =>
       {| rs_plan := transfer (rs_plan st) k j h; rs_total := rs_total st - c_total tar;
-         rs_events := rs_events st ++ [mk_event ReliefProc (rs_plan st) (Some k) j h (c_series tar) (c_total tar)];
+         rs_events := rs_events st ++ [mk_event ReliefProc (rs_plan st) (Some k) j h tar];
          rs_abort := false |}
     end
   end.
@@ -326,7 +327,7 @@ Definition assign_step (o : opts) (scraped : N -> bool) (gstatus : N -> cstat) (
       | Some j =>
         {| as_plan := upd j (fun s => set_scr (add_load s (c_series status) (c_total status)) (aset h status (scr_of s))) p;
            as_need := as_need st;
-           as_events := as_events st ++ [mk_event First p None j h (c_series status) (c_total status)];
+           as_events := as_events st ++ [mk_event First p None j h status];
            as_sst := s' |}
       | None =>
         {| as_plan := p; as_need := (fst (as_need st) + c_series status, snd (as_need st) + c_total status);
@@ -403,7 +404,7 @@ Definition become_idle_step (o : opts) (k : nat) (st : idle_state) (h : N) : idl
       | None => {| is_plan := is_plan st; is_events := is_events st; is_failed := true; is_sst := s' |}
       | Some j =>
         {| is_plan := transfer (is_plan st) k j h;
-           is_events := is_events st ++ [mk_event ScaleDown (is_plan st) (Some k) j h (c_series tar) (c_total tar)];
+           is_events := is_events st ++ [mk_event ScaleDown (is_plan st) (Some k) j h tar];
            is_failed := false; is_sst := s' |}
       end
   end.
